@@ -260,6 +260,18 @@ def r18_10(prog, rep):
     over_mro = any(T.contains(c, lambda x: x == ("attr", tp, "__mro__") or (x[0] == "call" and x[1][0] == "attr" and x[1][1] == tp and x[1][2] == "mro")) for c in srcs)
     one_name = any(T.contains(c, lambda x: T.is_call_to(x, "builtins.isinstance") and T.refname(x[2][1]) == "builtins.str") for c in srcs)
     rep.check(over_mro, "R18.10", f.qualname, f.loc, "__slots__ are collected from every class of the hierarchy", "__slots__ is read from the class itself only: a subclass's __slots__ lists just its own additions, so the inherited public fields are never yielded -- iteritems(Derived(1, 2, 3)) == [('c', 3)]", detail="slots-hierarchy")
+    # ... the right way round: under the str test the declaration itself is the one name
+    for c in srcs:
+        for x in T.walk(c):
+            if x[0] == "ifexp" and T.is_call_to(x[1], "builtins.isinstance") and T.refname(x[1][2][1]) == "builtins.str":
+                d = x[1][2][0]
+                wraps = lambda y: y[0] in ("tuple", "list") and y[1] == (d,)  # noqa: E731
+                if not (wraps(x[2]) and x[3] == d):
+                    one_name = False
+            if x[0] == "ifexp" and x[1][0] == "not" and T.is_call_to(x[1][1], "builtins.isinstance") and T.refname(x[1][1][2][1]) == "builtins.str":
+                d = x[1][1][2][0]
+                if not (x[2] == d and x[3][0] in ("tuple", "list") and x[3][1] == (d,)):
+                    one_name = False
     rep.check(one_name, "R18.10", f.qualname, f.loc, "a string-valued __slots__ is one name", "a string-valued __slots__ ('value') is iterated character by character: AttributeError on 'v'", detail="slots-string")
 
 
@@ -373,6 +385,41 @@ def r18_12(prog, rep, rule="R18.12"):
                         return True
         return False
 
+    def dict_part_ok(term, depth=0):
+        """None, or what is wrong with the way the function `term` emits the instance dict: pairs (name, value) of vars(val), public
+        names only, and only the names the slots did not yield already."""
+        if T.is_call_to(term, "functools.partial") and term[2]:
+            return dict_part_ok(term[2][0], depth)
+        if term[0] == "closure":
+            try:
+                fi, ps2 = P.closure_paths(prog, f, term[1].rsplit(".", 1)[-1])
+            except Exception:
+                return None
+        elif term[0] == "ref" and term[1] in prog.functions:
+            fi = prog.functions[term[1]]
+            ps2 = P.paths_of(prog, fi)
+        else:
+            return None
+        own = {("param", nm) for nm in fi.params}
+        # (does it emit the slots as well?  then the dict part complements them; the plain vars() strategy has nothing to exclude)
+        complements = any(T.contains(tm, lambda y: (T.is_call_to(y, "builtins.getattr") and y[2][:1] and y[2][0] in own) or (y[0] == "call" and y[1][0] in ("closure", "ref") and y[1][0] == "closure" and y[2][:1] and y[2][0] in own)) for p2 in ps2 for tm in p2.all_terms())
+        for p2 in ps2:
+            for tm in p2.all_terms():
+                for x in T.walk(tm):
+                    if x[0] == "comp" and x[3] and x[3][0][0][0] == "call" and x[3][0][0][1][0] == "attr" and x[3][0][0][1][2] == "items" and T.is_call_to(x[3][0][0][1][1], "builtins.vars") and x[3][0][0][1][1][2][:1] and x[3][0][0][1][1][2][0] in own:
+                        d = x[3][0][0][1][1]
+                        if x[2] != ("tuple", (("key", d), ("value", d))):
+                            return f"the entries of the instance dict are not emitted as (name, value) pairs: {T.show(x[2])[:50]}"
+                        flat = []
+                        for cd in x[4]:
+                            flat += list(cd[2]) if cd[0] == "boolop" and cd[1] == "and" else [cd]
+                        if complements and not any(cd[0] == "cmp" and cd[1] == "notin" and cd[2] == ("key", d) for cd in flat) and not any(cd[0] == "not" and cd[1][0] == "cmp" and cd[1][1] == "in" and cd[1][2] == ("key", d) for cd in flat):
+                            return "the entries of the instance dict are not restricted to the names the slots did not yield (a name both slotted and in the dict is emitted twice, or only such names are emitted)"
+                        if not any(cd[0] == "not" and cd[1][0] == "call" and cd[1][1][0] == "attr" and cd[1][1][2] == "startswith" and cd[1][1][1] == ("key", d) for cd in flat):
+                            return "private entries of the instance dict are emitted"
+        return None
+
+    shape_problems = []
     for p in P.splice_helpers(prog, P.paths_of(prog, f)):
         if p.exit[0] != "return":
             continue
@@ -385,6 +432,9 @@ def r18_12(prog, rep, rule="R18.12"):
         if last != "__slots__":
             continue
         n += 1
+        w = dict_part_ok(p.exit[1])
+        if w:
+            shape_problems.append(w)
         atoms = T.derive_atoms(p.guards())
         no_dict = any((not val) and a == ("attr", tp, "__dictoffset__") for a, val in atoms) or any(val and a == ("not", ("attr", tp, "__dictoffset__")) for a, val in atoms)
         if not no_dict and not reads_dict(p.exit[1]):
@@ -392,6 +442,7 @@ def r18_12(prog, rep, rule="R18.12"):
     if not n:
         rep.held(rule, f.qualname, f.loc, "no attribute names are taken from __slots__", detail="slots-and-dict", nontrivial=False)
         return
+    rep.check(not shape_problems, rule, f.qualname, f.loc, "where the instance dict complements the slots its public entries are emitted as (name, value) pairs, each name once", (shape_problems or [""])[0], detail="dict-part-shape")
     rep.check(not bad, rule, f.qualname, f.loc, f"{n} path(s) take names from __slots__: the instance has no __dict__ there, or the iterator reads it too", f"names are taken from __slots__ alone although the instances may own a __dict__ as well (only part of the hierarchy is slotted): `class Base: __slots__ = ('a',)` / `class Child(Base)` storing self.b -- iteritems(Child('1', 2)) yields only ('a', '1'), and unmarshal(Child, Child('1', 2)) raises TypeError (missing 'b')", detail="slots-and-dict")
 
 
